@@ -886,8 +886,23 @@ class Walker:
                     return [("val", UNK, s)]
             return [("val", UNK, s)]
         if isinstance(node.slice, ast.Slice):
-            parts = [node.value] + [p for p in (node.slice.lower, node.slice.upper, node.slice.step) if p is not None]
-            return self._seq(parts, st, lambda vals, s: [("val", UNK, s)])
+            sl = node.slice
+            present = [p for p in (sl.lower, sl.upper, sl.step) if p is not None]
+
+            def cont_slice(vals, s):
+                base = vals[0]
+                rest = list(vals[1:])
+                if base.kind == "const" and all(v.kind == "const" for v in rest):
+                    it = iter(rest)
+                    lo = next(it).value if sl.lower is not None else None
+                    hi = next(it).value if sl.upper is not None else None
+                    stp = next(it).value if sl.step is not None else None
+                    try:
+                        return [("val", Const(base.value[lo:hi:stp]), s)]
+                    except Exception:
+                        return [("val", UNK, s)]
+                return [("val", UNK, s)]
+            return self._seq([node.value] + present, st, cont_slice)
         return self._seq([node.value, node.slice], st, cont)
 
     def e_UnaryOp(self, node, st):
@@ -1082,6 +1097,14 @@ class Walker:
             recv = vals[:npre]
             args = vals[npre:npre + len(argnodes)]
             kws = dict(zip([k.arg for k in node.keywords], vals[npre + len(argnodes):]))
+            # pure string methods on constant receivers fold to constants
+            if isinstance(node.func, ast.Attribute) and node.func.attr in PURE_STR_METHODS and len(recv) == 1 \
+                    and recv[0].kind == "const" and isinstance(recv[0].value, (str, bytes)) \
+                    and all(a.kind == "const" for a in args) and not kws:
+                try:
+                    return [("val", Const(getattr(recv[0].value, node.func.attr)(*[a.value for a in args])), s)]
+                except Exception:
+                    pass
             return self._do_call(node, target, args, kws, s)
 
         return self._seq(pre + argnodes + kwnodes, st, cont)
@@ -1216,6 +1239,9 @@ class Walker:
 
 
 # ---------------------------------------------------------------------- helpers
+PURE_STR_METHODS = {"startswith", "endswith", "strip", "lstrip", "rstrip", "lower", "upper", "find", "rfind", "count",
+                    "isdigit", "isalpha", "isspace", "removeprefix", "removesuffix", "replace", "split", "rsplit",
+                    "partition", "rpartition", "title", "capitalize", "index", "rindex", "zfill"}
 EXT_CONSTS = {
     "socket.MSG_PEEK": "<socket.MSG_PEEK>",
 }
